@@ -79,7 +79,7 @@ def configs(tier, seed):
         for sname, cliques in cat.items():
             for zm in ("none", "some"):
                 cfgs.append(dict(name="refit:%s:%s:%s" % (sname, sizes, zm), kind="refit", attrs=attrs, sizes=sizes, cliques=cliques, zmode=zm, cost=4,
-                                 core=(max(sizes) <= 2 or len(sizes) <= 3), timeout=600))
+                                 core=(len(sizes) <= 3 or (len(sizes) == 4 and max(sizes) <= 2)), timeout=600))
     return cfgs
 
 
